@@ -13,6 +13,7 @@ package main
 // dup and mixed also run in the -race build (registry map under contention).
 
 import (
+	"math/rand"
 	"context"
 	"fmt"
 	"sync"
@@ -135,7 +136,7 @@ func c10Dup(c *caseCtx) (res caseResult) {
 	nSp := 2 + r.Intn(15)
 	withIncumbent := r.Intn(2) == 0
 	backlog := 0
-	id := "x"
+	id := c10ID(r, "x")
 	var incumbent *actor.PID
 	if withIncumbent {
 		incumbent = e.Spawn(w.producer(id), "dup", actor.WithID(id), actor.WithInboxSize(pick(r, 1, 4, 1024)))
@@ -276,7 +277,7 @@ func c10Cycle(c *caseCtx) (res caseResult) {
 		return
 	}
 	w := newC10World()
-	id := "cyc"
+	id := c10ID(r, "cyc")
 	k := 2 + r.Intn(5)
 	nS := 1 + r.Intn(3)
 	var sent int64
@@ -693,4 +694,14 @@ func c10WhileStopping(c *caseCtx) (res caseResult) {
 	res.Sample = map[string]any{"scenario": res.Desc}
 	e.Poison(pid)
 	return res
+}
+
+
+// c10ID: ids are free-form strings chosen by the application; most runs use a plain word, some use
+// ids with path, URL or whitespace syntax in them - they name an actor like any other.
+func c10ID(r *rand.Rand, plain string) string {
+	if r.Intn(3) != 0 {
+		return plain
+	}
+	return pick(r, "http://example.com/feed", "./relative/file.txt", "dir/../other", "trailing/", "a//b", ".", "..", " padded ", "user@host:22", "ключ/键", "with%2Fescape", "tab\tid")
 }
